@@ -11,7 +11,7 @@ def write_cfg(name, consts, invariants, properties=()):
             os.symlink(os.path.join(common.SPEC, f), os.path.join(d, f))
     lines = ["SPECIFICATION Spec", "CONSTANTS"]
     for k, v in consts.items():
-        if isinstance(v, str) and v not in ("TRUE", "FALSE"):
+        if isinstance(v, str) and v not in ("TRUE", "FALSE") and not v.startswith('"'):
             lines.append(f"  {k} <- {v}")
         else:
             lines.append(f"  {k} = {v}")
